@@ -231,7 +231,7 @@ theorem exact_logic {T : TruthTable} (hT : wf T = true) (a b : Val F) (r : Res F
 theorem exact_dot {T : TruthTable} (a b : Val F) (r : Res F) (hs : Spec.Ops.eval P .dot a b = some r) :
     eval P T .dot false a b = r := by
   cases a <;> cases b <;>
-    simp [Spec.Ops.eval, Spec.Ops.bothStr] at hs <;>
+    simp [Spec.Ops.eval, Spec.Ops.render] at hs <;>
     subst hs <;>
     simp [eval, dot, dotStr]
 
